@@ -28,10 +28,15 @@ SetOk(t, r) ==
        ELSE IF s.st = "ok" THEN r.ret = 0 /\ r.rootkept /\ after = P!Visible(s.t, 1) /\ (dashAppend \/ r.same)
        ELSE IF s.st = "extends" THEN (r.ret = 0 /\ after = P!Visible(s.t, 1) /\ r.same) \/ (r.ret # 0 /\ after = P!Visible(t, 1))
        ELSE r.ret # 0 /\ r.rootkept /\ after = P!Visible(t, 1)
+\* "fset": the same call while one of its allocation requests was made to fail: it completes as usual, or it fails and then the
+\* document is what it was, the value is still the caller's and intact, and nothing the call allocated remains
+FSetOk(t, r) == IF r.ret = 0 THEN SetOk(t, r)
+                ELSE r.rootkept /\ TreeOf(r.after) = P!Visible(t, 1) /\ r.intact /\ r.leak = 0
 StepOfImpl(t, r) ==
     IF r.e = "tree" THEN [ok |-> TRUE, st |-> TreeOf(r.nodes)]
     ELSE IF r.e = "get" THEN [ok |-> GetOk(t, r), st |-> t]
     ELSE IF r.e = "set" THEN [ok |-> SetOk(t, r), st |-> t]
+    ELSE IF r.e = "fset" THEN [ok |-> FSetOk(t, r), st |-> t]
     ELSE [ok |-> FALSE, st |-> t]
 TraceLog == ndJsonDeserialize(IOEnv.TRACE)
 T == INSTANCE TraceBase WITH Log <- TraceLog, InitSt <- <<>>, StepOf <- StepOfImpl, ResyncAtNew <- FALSE
